@@ -297,6 +297,38 @@ TRUSTED_BASE = [
     'hand-written Gallina transcriptions of the algorithmic Python bodies are tied to the code by correspondence only',
 ]
 
+FORBIDDEN = re.compile(r'\b(Admitted|admit|Axiom|Axioms|Parameter|Parameters|Conjecture|Admit Obligations|bypass_check|Unset Guard Checking|Unset Positivity Checking|Unset Universe Checking)\b|-type-in-type|-impredicative-set')
+def hygiene_scan():
+    """textual scan of every .v file (generated ones included) and of _CoqProject for declarations or flags the brief forbids;
+    comments are stripped first.  `Variable`/`Hypothesis` are allowed only between Section ... End."""
+    bad = []
+    for root, _, files in os.walk(COQ):
+        for f in files:
+            if not (f.endswith('.v') or f == '_CoqProject'): continue
+            path = os.path.join(root, f)
+            if 'Gen.baseline' in path: continue
+            text = open(path, encoding='utf-8', errors='replace').read()
+            prev = None
+            while prev != text:                                     # strip (nested) comments
+                prev = text; text = re.sub(r'\(\*(?:(?!\(\*|\*\)).)*\*\)', ' ', text, flags=re.S)
+            text = re.sub(r'"(?:[^"]|"")*"', '""', text)        # and string literals
+            for m in FORBIDDEN.finditer(text):
+                bad.append('%s: %s' % (os.path.relpath(path, COQ), m.group(0)))
+            depth = 0
+            for line in text.split('\n'):
+                if re.match(r'\s*Section\b', line): depth += 1
+                elif re.match(r'\s*End\b', line) and depth > 0: depth -= 1
+                elif depth == 0 and re.match(r'\s*(Variable|Variables|Hypothesis|Hypotheses|Context)\b', line):
+                    bad.append('%s: %s outside a section' % (os.path.relpath(path, COQ), line.strip()[:60]))
+    return bad
+
+def coqchk(prop_id, timeout=1500):
+    """independent re-check of the compiled property file and everything it depends on; returns (ok, axioms text)"""
+    rc, out = sh('cd %s && timeout %d coqchk -silent -o -R . YV YV.Props.%s 2>&1' % (COQ, timeout, prop_id), timeout=timeout + 30)
+    m = re.search(r'CONTEXT SUMMARY(.*)', out, flags=re.S)
+    summ = ' '.join((m.group(1) if m else out[-1500:]).split())[:1500]
+    return rc == 0, summ
+
 class Ctx:
     def __init__(self, prop, tier, seed, replay=None):
         self.prop, self.tier, self.seed, self.replay = prop, tier, seed, replay
@@ -348,6 +380,13 @@ class Ctx:
         self.checker_cmd = r['checker_cmd']
         self.obligations = r['obligations']
         self.prove_log = r['log']
+        bad = hygiene_scan()
+        if bad: self.broken.append(('hygiene:no_admitted_no_axioms', 'forbidden vernacular in the Coq development: ' + '; '.join(bad[:10])))
+        else: self.notes.append('hygiene: no Admitted/admit/Axiom/Parameter/Conjecture/Hypothesis-outside-section/guard-checks-off/-type-in-type in coq/**/*.v and _CoqProject')
+        if self.tier == 'thorough' and r['ok']:
+            ok, axioms = coqchk(self.prop)
+            self.notes.append('coqchk -o Props/%s.vo: %s; axioms reported: %s' % (self.prop, 'accepted' if ok else 'FAILED', axioms))
+            if not ok: self.broken.append(('coqchk:' + self.prop, axioms))
         if not r['ok']:
             bad = [o['name'] for o in r['obligations'] if o['status'] == 'FAILED']
             where = '%s:%s' % (r['failed_file'], r['failed_line'])
